@@ -6,18 +6,26 @@ import sys
 import vcheck as V
 
 
-def seq_check(check, level, assumptions, parts=None, nshards=None, timeout=None):
+def seq_check(check, level, assumptions, parts=None, nshards=None, timeout=None, env=None):
     """generic Engine A check: run `seqmc <check>` sharded (optionally several parts)."""
 
     def run(prop, tier, seed, replay, t0):
         binary = V.build_seqmc()
         if replay:
-            r = subprocess.run([binary, check, "-tier", tier, "-replay", replay])
+            e = dict(os.environ)
+            if env:
+                e.update(env(tier))
+            r = subprocess.run([binary, check, "-tier", tier, "-replay", replay], env=e)
             return r.returncode
         jobs = []
         ps = parts(tier) if parts else [""]
         for p in ps:
             jobs += V.sharded(binary, check, tier, seed, nshards or V.NCPU, part=p)
+        if env:
+            e = dict(os.environ)
+            e.update(env(tier))
+            for j in jobs:
+                j["env"] = e
         to = (timeout or {}).get(tier, 900 if tier == "quick" else 7200)
         results, failures = V.run_jobs(jobs, os.path.join(V.SCRATCH, "work", prop), to)
         merged = V.merge(results)
@@ -26,7 +34,12 @@ def seq_check(check, level, assumptions, parts=None, nshards=None, timeout=None)
     return run
 
 
+def golden_env(tier):
+    return {"VERIF_GOLDEN": os.environ.get("VERIF_GOLDEN", os.path.join(V.VERIF, "golden", "c08_golden.json"))}
+
+
 PROPS = {
+    "C08": seq_check("c08", "exploration", ["the reference codec (seqmc/refcodec) is a correct statement of the pinned layout; it was written from format.md and the pinned constants and agrees with the golden corpus captured at 554461f"], env=golden_env),
     "C01": seq_check("c01", "exploration", ["trees beyond the node bound are covered only by the parametric families"]),
     "C10": seq_check("c10", "exploration", [
         "NaN payload bits are not compared (a NaN must read back as a NaN): widening float32->float64->float32 quiets signalling NaNs in hardware",
